@@ -7,6 +7,7 @@ package main
 
 import (
 	"bufio"
+	"bytes"
 	"crypto/sha256"
 	"encoding/hex"
 	"encoding/json"
@@ -14,8 +15,11 @@ import (
 	"fmt"
 	"math/rand"
 	"os"
+	"os/exec"
 	"path/filepath"
 	"sort"
+	"strconv"
+	"strings"
 )
 
 // Failure is one concrete failing input found by an implementation-side oracle.
@@ -51,6 +55,8 @@ type Out struct {
 	Sum    Summary
 	hashes map[string]bool
 	n      int
+	cur    *os.File
+	skip   map[int]bool
 }
 
 func NewOut(dir, stream string, seed int64) *Out {
@@ -90,6 +96,34 @@ func (o *Out) Case(req, implAnswer, input string, nontrivial bool) int {
 	return o.n - 1
 }
 
+// Current notes the input about to be run in current.txt, so that a crash of the whole process
+// (a fatal runtime error cannot be recovered) is attributable to an input.
+func (o *Out) Current(idx int, input string) {
+	input = fmt.Sprintf("#%d\n%s", idx, input)
+	if o.cur == nil {
+		f, err := os.Create(filepath.Join(o.dir, "current.txt"))
+		if err != nil {
+			return
+		}
+		o.cur = f
+	}
+	_ = o.cur.Truncate(0)
+	_, _ = o.cur.WriteAt([]byte(input), 0)
+}
+
+// Skipped reports whether case idx was found, by the supervising process, to exhaust memory
+// (a fatal runtime error that kills the process; outside every guarantee). Such a case is generated,
+// so that the PRNG stays aligned, but not run; it is listed in the summary.
+func (o *Out) Skipped(idx int, input string) bool {
+	if !o.skip[idx] {
+		return false
+	}
+	o.Sum.Skipped++
+	o.Sum.Hist["resource-exhaustion-not-run"]++
+	o.Sum.Notes = append(o.Sum.Notes, fmt.Sprintf("case %d exhausts memory (fatal runtime error in a child run) and is not run: %q", idx, input))
+	return true
+}
+
 func (o *Out) Fail(f Failure) {
 	if len(o.Sum.Failures) < 200 {
 		o.Sum.Failures = append(o.Sum.Failures, f)
@@ -103,6 +137,10 @@ func (o *Out) Close() {
 	o.srcs.Flush()
 	for _, f := range o.files {
 		f.Close()
+	}
+	if o.cur != nil {
+		o.cur.Close()
+		os.Remove(filepath.Join(o.dir, "current.txt"))
 	}
 	b, _ := json.MarshalIndent(o.Sum, "", " ")
 	if err := os.WriteFile(filepath.Join(o.dir, "summary.json"), b, 0o644); err != nil {
@@ -144,6 +182,7 @@ func main() {
 	n := fs.Int("n", 1000, "number of generated cases")
 	out := fs.String("out", "", "output directory")
 	thorough := fs.Bool("thorough", false, "thorough tier")
+	skip := fs.String("skip", "", "case indices not to run (set by the supervising process)")
 	_ = fs.Parse(os.Args[2:])
 	fn, ok := streams[name]
 	if !ok {
@@ -154,8 +193,61 @@ func main() {
 		fmt.Fprintln(os.Stderr, "-out required")
 		os.Exit(2)
 	}
+	if supervised[name] && os.Getenv("VERIF_SUPERVISED") == "" {
+		supervise(*out)
+		return
+	}
 	o := NewOut(*out, name, *seed)
+	o.skip = map[int]bool{}
+	for _, f := range strings.Split(*skip, ",") {
+		if k, err := strconv.Atoi(f); err == nil {
+			o.skip[k] = true
+		}
+	}
 	fn(o, rand.New(rand.NewSource(*seed)), *n, *thorough)
 	stopWorker()
 	o.Close()
+}
+
+// supervised streams run whole generated programs in-process; a program that asks for an astronomically
+// large allocation kills the process with a fatal runtime error, which no recover can catch.
+var supervised = map[string]bool{"vm": true, "cancel": true, "isolation": true}
+
+// supervise runs the stream in a child process and, when the child dies of memory exhaustion while
+// running the input noted in current.txt, runs it again with that case excluded. Any other death of
+// the child is passed on unchanged (exit status and stderr), so it stays a crash verdict.
+func supervise(out string) {
+	var skip []string
+	for attempt := 0; ; attempt++ {
+		args := append([]string{}, os.Args[1:]...)
+		if len(skip) > 0 {
+			args = append(args, "-skip", strings.Join(skip, ","))
+		}
+		cmd := exec.Command(os.Args[0], args...)
+		cmd.Env = append(os.Environ(), "VERIF_SUPERVISED=1")
+		cmd.Stdout = os.Stdout
+		var eb bytes.Buffer
+		cmd.Stderr = &eb
+		err := cmd.Run()
+		if err == nil {
+			os.Stderr.Write(eb.Bytes())
+			return
+		}
+		msg := eb.String()
+		cur, cerr := os.ReadFile(filepath.Join(out, "current.txt"))
+		oom := strings.Contains(msg, "fatal error: out of memory") || strings.Contains(msg, "fatal error: runtime: out of memory") ||
+			strings.Contains(msg, "fatal error: runtime: cannot allocate memory")
+		if oom && cerr == nil && attempt < 8 && strings.HasPrefix(string(cur), "#") {
+			head := strings.SplitN(string(cur), "\n", 2)[0]
+			if _, e := strconv.Atoi(head[1:]); e == nil {
+				skip = append(skip, head[1:])
+				continue
+			}
+		}
+		os.Stderr.Write(eb.Bytes())
+		if ee, ok := err.(*exec.ExitError); ok && ee.ExitCode() > 0 {
+			os.Exit(ee.ExitCode())
+		}
+		os.Exit(3)
+	}
 }
